@@ -4,11 +4,11 @@ PROP = dict(
         "ntp_proto::server::Server<SymClock>::handle and everything it reaches (parser, policy, response construction, serialiser) under Kani's panic/overflow/bounds/unwrap checks",
         "ntp_proto::time_types::NtpDuration::{from_seconds, to_bits_short, to_bits_time32} on the root-dispersion value (c22_encode_dispersion)",
     ],
-    bounds=("all harnesses of C15/C16/C21 (lengths 0..=52, templates up to 120 B) plus: NTPv4 56 B (8-byte trailer), NTPv3 53/54/55 B, NTPv5 52 and 56 B with 4/8 symbolic "
-            "bytes after the header (one or two extension fields with symbolic type and length words, incl. an empty NTS-encrypted field) in request and response mode; "
+    bounds=("answered and mode-rejected datagrams only: all harnesses of C15/C16/C21 (48/52 B, templates up to 120 B) plus: NTPv4 56 B (8-byte trailer), NTPv3 53/54/55 B; "
             "buffers request-sized and larger; synchronisation state: any stratum 1..255, reference id, leap indicator, precision >= 0, 0 <= root delay <= 65535 s, "
             "root dispersion any non-negative duration <= 65535 s; root dispersion as f64 in [0, 65535)."),
     outside=("paths Kani could not execute within 8 GB / 15 min (kept in the crate, not registered; exercised natively only by `cargo test --release native_`): "
+             "EVERY DATAGRAM THE PARSER REJECTS (too short, trailing bytes, unknown version, NTPv5 without draft identification; see C15 for the measurement), "
              "serialisation failure (answer does not fit), undecryptable NTS field (DecryptError -> NAK), NTPv5 answers; unstructured datagrams longer than 56 bytes (templates only); symbolic LI/version/mode bits within one call; NTS requests with valid cookies (np_srvnts_h); "
              "negative root delay or precision in the published snapshot (Server::handle WOULD panic: to_bits_short/to_bits_time32 assert!(duration >= 0) - the snapshot is "
              "produced by the clock controller, C06 not applicable; reported to the lead); dev-profile-only panics: root delay/dispersion > 65535 s (debug_assert in "
@@ -21,19 +21,14 @@ PROP = dict(
     harnesses=[
         H(NS, "c22", "c22_any_v4_56", "NTPv4 56 B end-to-end"),
         H(NS, "c22", "c22_encode_dispersion", "root dispersion f64 -> NtpDuration -> 16.16/time32 never hits the non-negativity assert; value = floor"),
-        H(NS, "c15", "c15_reject_short", "lengths 0,1,24,47, first bytes v4/v3/v5/version 0"),
-        H(NS, "c15", "c15_reject_wire_modes_v4", "non-client modes"),
-        H(NS, "c15", "c15_reject_wire_versions", "unknown versions, NTPv5 header alone"),
-        H(NS, "c15", "c15_reject_wire_trailing", "1..3 trailing bytes"),
+        H(NS, "c15", "c15_reject_mode4", "non-client datagram, every policy"),
         H(NS, "c15", "c15_policy_v4", "every policy on an accepted request (policy half)"),
         H(NS, "c15", "c15_policy_v6", "IPv6 / IPv4-mapped clients"),
         H(NS, "c16", "c16_wire_v4_time", "time answer end-to-end"),
         H(NS, "c16", "c16_wire_v4_deny", "DENY end-to-end"),
         H(NS, "c16", "c16_wire_v4_uid36_time", "unique identifier echoed"),
         H(NS, "c21", "c21_once", "buffer larger than the request; rejects"),
-        H(NS, "c22", "c22_any_v5_56", "NTPv5 52/56 B with symbolic extension-field words, request and response mode", tier="thorough"),
         H(NS, "c22", "c22_any_v3_53_55", "NTPv3 53/54/55 B", tier="thorough"),
-        H(NS, "c15", "c15_reject_short_all", "every length 0..=47", tier="thorough"),
         H(NS, "c16", "c16_wire_v4_uid36x2_time", "NTPv4 120 B template", tier="thorough"),
     ],
 )
